@@ -37,6 +37,7 @@ def run(F, R, ctx):
         raise CheckError("anchor lost: JIT translator opcode match not found")
     _, tr, s = best
     m = lib.arm_map(tr, s)
+    gidx = shared.gidx_vm(F)
     n = 0
     for op in sorted(em):
         t = m.get(op, m["_"])
@@ -51,6 +52,30 @@ def run(F, R, ctx):
                "contains it aborts the host; with STEEL_JIT=false the same program runs" % (
                    tr.short(), op, (bl or {}).get("mac", "panic")), tr.loc(tr.blocks[s]["line"]), sample=True)
     R.floor("C02.a", "emittable opcodes examined", n, 60)
+
+    # ---- e: assignable globals are looked up when the call runs, not when the closure is compiled
+    R.rule("C02.e", "in the JIT translator's opcode match only the arm for CALLPRIMITIVE (immutable #%prim bindings) may read "
+                    "the compile-time snapshot of the global table (FunctionTranslator._globals); the arms for the opcodes that "
+                    "reference assignable globals (CALLGLOBAL*, PUSH, SET) must defer the lookup to a run-time helper, as the "
+                    "interpreter does (its arms call Env::repl_*_idx when they execute)")
+    snap = "_globals"
+    if not any(f_["name"] == snap for v_ in F.adt("FunctionTranslator")["variants"] for f_ in v_["fields"]):
+        raise CheckError("anchor lost: FunctionTranslator.%s" % snap)
+    for op in sorted(gidx):
+        if op == "CALLPRIMITIVE" or op not in m or m[op] == m["_"]:
+            continue
+        blocks = lib.arm_reach(tr, s, m[op])
+        dom_tr = tr.dominators()
+        arm_only = [b for b in blocks if m[op] in dom_tr.get(b, ())]
+        reads = [b for b in arm_only for e in tr.blocks[b]["e"] if e[0] == "fld" and e[1] == "FunctionTranslator" and e[2] == snap]
+        R.inst("C02.e", "translator arm %s does not bake in a global's value" % op, not reads,
+               "%s's arm for %s reads FunctionTranslator.%s (the values of the globals at the time the closure is compiled): "
+               "with the JIT on, a later (set! g …) or redefinition is ignored by already compiled callers, while the "
+               "interpreter looks the global up on every call" % (tr.short(), op, snap), tr.loc(tr.blocks[s]["line"]), sample=True)
+    prim_reads = [b for b in lib.arm_reach(tr, s, m.get("CALLPRIMITIVE", m["_"])) for e in tr.blocks[b]["e"]
+                  if e[0] == "fld" and e[2] == snap]
+    R.inst("C02.e", "positive control: the CALLPRIMITIVE arm is seen reading the snapshot", bool(prim_reads), "matcher broken",
+           tr.loc(), sample=True, nontrivial=False)
 
     # ---- b (shared with C06.H)
     gv = shared.gidx_vm(F)
